@@ -2234,6 +2234,7 @@ class IrregularLattice(Lattice):
             mps_fix_u = np.nonzero(order_[:, -1] == u)[0]
             self._mps_fix_u.append(mps_fix_u)
         self._mps_fix_u = tuple(self._mps_fix_u)
+        self._mps_sites_cache = None
         self.N_sites = len(order_)
         _, counts = np.unique(order_[:, 0], return_counts=True)
         if np.all(counts == counts[0]):
@@ -2432,6 +2433,7 @@ class HelicalLattice(Lattice):
             mps_fix_u = np.nonzero(order_[:, -1] == u)[0]
             self._mps_fix_u.append(mps_fix_u)
         self._mps_fix_u = tuple(self._mps_fix_u)
+        self._mps_sites_cache = None
 
     def mps_idx_fix_u(self, u=None):
         if u is not None:
